@@ -2,8 +2,10 @@ package checks
 
 import (
 	"bytes"
+	"encoding/binary"
 	"encoding/json"
 	"fmt"
+	mbits "math/bits"
 	"testing"
 
 	kanzi "github.com/flanglet/kanzi-go/v2"
@@ -34,11 +36,16 @@ type C02Case struct {
 	Splice   int        `json:"splice,omitempty"` // >0: block index (1-based) replaced by the same block of a second stream, keeping the original hash
 	Seed2    uint64     `json:"seed2,omitempty"`
 	BitFlip  int        `json:"bit_flip,omitempty"` // >0: flip exactly this payload bit ordinal (exhaustive sweep), 1-based
+	// Compensate (NONE/NONE streams, where the coded data are the block bytes): the first word of the first block is
+	// XORed with Compensate and the word in the same hash lane of the next stripe is recomputed so that the lane
+	// state - hence the block hash - is unchanged (XXHash is not collision resistant: known finding KF-42)
+	Compensate uint32 `json:"compensate,omitempty"`
 	ReadJobs uint       `json:"read_jobs"`
 	ReadBufs []int      `json:"read_bufs,omitempty"`
 }
 
 type c02Out struct {
+	known      string
 	msg        string
 	nontrivial bool
 	outcome    string
@@ -103,6 +110,50 @@ func applyMutation(b *kfmt.Bits, st *kfmt.Stream, m Mutation) bool {
 		}
 	}
 	return !bytes.Equal(before, b.B)
+}
+
+// xxhCompensate rewrites raw (the bytes of a block as hashed) in place: word 0 ^= x, and the word of the same lane
+// in the next stripe is chosen so that the lane accumulator after both stripes is what it was. Restated from the
+// published XXH32/XXH64 round function (acc = rotl(acc + w*P2, r) * P1, first lane seeded with seed+P1+P2); the
+// stream layer seeds its hashers with the bitstream magic.
+func xxhCompensate(raw []byte, width uint, x uint32) bool {
+	const seed = uint64(0x4B414E5A)
+	if width == 32 {
+		if len(raw) < 32 {
+			return false
+		}
+		p1, p2 := uint32(2654435761), uint32(2246822519)
+		v1 := uint32(seed) + p1 + p2
+		round := func(acc, val uint32) uint32 { return mbits.RotateLeft32(acc+val*p2, 13) * p1 }
+		inv := p2
+		for i := 0; i < 5; i++ {
+			inv *= 2 - p2*inv
+		}
+		w0 := binary.LittleEndian.Uint32(raw[0:])
+		w1 := binary.LittleEndian.Uint32(raw[16:])
+		w0x := w0 ^ x
+		a, ax := round(v1, w0), round(v1, w0x)
+		binary.LittleEndian.PutUint32(raw[0:], w0x)
+		binary.LittleEndian.PutUint32(raw[16:], w1+(a-ax)*inv)
+		return true
+	}
+	if len(raw) < 64 {
+		return false
+	}
+	p1, p2 := uint64(0x9E3779B185EBCA87), uint64(0xC2B2AE3D27D4EB4F)
+	v1 := seed + p1 + p2
+	round := func(acc, val uint64) uint64 { return mbits.RotateLeft64(acc+val*p2, 31) * p1 }
+	inv := p2
+	for i := 0; i < 6; i++ {
+		inv *= 2 - p2*inv
+	}
+	w0 := binary.LittleEndian.Uint64(raw[0:])
+	w1 := binary.LittleEndian.Uint64(raw[32:])
+	w0x := w0 ^ uint64(x)
+	a, ax := round(v1, w0), round(v1, w0x)
+	binary.LittleEndian.PutUint64(raw[0:], w0x)
+	binary.LittleEndian.PutUint64(raw[32:], w1+(a-ax)*inv)
+	return true
 }
 
 // c02Pre caches the undamaged stream of a sweep.
@@ -176,6 +227,23 @@ func runC02(r *vrt.Run, c C02Case, pre *c02Pre) (o c02Out) {
 		damaged[k+1] = true
 		o.changed = true
 		mustFail = true
+	case c.Compensate != 0:
+		k := st.Blocks[0]
+		n := (k.End - k.PayloadStart) / 8
+		raw := make([]byte, n)
+		for i := range raw {
+			v, _ := bits.Read(k.PayloadStart+8*i, 8)
+			raw[i] = byte(v)
+		}
+		if !xxhCompensate(raw, c.Cfg.Checksum, c.Compensate) {
+			o.outcome = "skipped:block-too-short-for-a-compensated-substitution"
+			return
+		}
+		for i, v := range raw {
+			bits.Put(k.PayloadStart+8*i, 8, uint64(v))
+		}
+		damaged[1] = true
+		o.changed = true
 	case c.BitFlip > 0:
 		ord := c.BitFlip - 1
 		for i, k := range st.Blocks {
@@ -226,6 +294,11 @@ func runC02(r *vrt.Run, c C02Case, pre *c02Pre) (o c02Out) {
 		o.msg = "Read faulted: " + tr.Panic
 		return
 	}
+	if !isPrefix(tr.Acc, data) && c.Compensate != 0 && tr.FirstErr == nil {
+		o.known = "KF-42"
+		o.msg = fmt.Sprintf("a substitution of two words computed to leave the XXHash%d lane state unchanged is returned as a success with different bytes (first difference at %d)", c.Cfg.Checksum, firstDiff(tr.Acc, data))
+		return
+	}
 	if !isPrefix(tr.Acc, data) {
 		d := firstDiff(tr.Acc, data)
 		when := "before any error was reported"
@@ -265,7 +338,9 @@ func runC02(r *vrt.Run, c C02Case, pre *c02Pre) (o c02Out) {
 func c02Eval(r *vrt.Run, c C02Case, pre *c02Pre) c02Out {
 	o := runC02(r, c, pre)
 	kind := "mutations"
-	if c.Splice > 0 {
+	if c.Compensate != 0 {
+		kind = "hash-compensated-substitution"
+	} else if c.Splice > 0 {
 		kind = "splice"
 	} else if c.BitFlip > 0 {
 		kind = "single-bit-sweep"
@@ -341,6 +416,10 @@ func TestC02(t *testing.T) {
 			t.Fatalf("bad case in %s: %v", p, err)
 		}
 		if o := c02Eval(r, c, nil); o.msg != "" {
+			if o.known != "" && r.KnownOpen(o.known) {
+				r.KnownLine(o.known + " " + firstLine(o.msg))
+				continue
+			}
 			r.RecordFailure("corruption", c, p, o.msg)
 			t.Fatalf("replay %s: %s", p, o.msg)
 		}
@@ -352,6 +431,21 @@ func TestC02(t *testing.T) {
 	r.Rapid(t, "mutations", 12000, 400000, func(t *rapid.T) {
 		c := drawC02(t, 16384)
 		if o := c02Eval(r, c, nil); o.msg != "" {
+			r.Violation(t, "corruption", c, "%s", o.msg)
+		}
+	})
+	// substitutions computed against the hash: NONE/NONE streams (the coded data are the hashed bytes), both widths
+	r.Rapid(t, "hash-compensated-substitutions", 64, 2000, func(t *rapid.T) {
+		c := C02Case{Cfg: gen.Config{Transform: "NONE", Entropy: "NONE", BlockSize: gen.DrawBlockSize(t, 8192, "bs"), Jobs: 1,
+			Checksum: rapid.SampledFrom([]uint{32, 64}).Draw(t, "ck"), HintClass: "absent"}, ReadJobs: gen.DrawJobs(t, 4, "rj"),
+			Compensate: rapid.Uint32Range(1, 1<<32-1).Draw(t, "xor")}
+		c.Data = gen.DrawRecipe(t, 3*int(c.Cfg.BlockSize), "data")
+		c.Data.Len = max(c.Data.Len, 64)
+		if o := c02Eval(r, c, nil); o.msg != "" {
+			if o.known != "" && r.KnownOpen(o.known) {
+				r.Excluded(o.known)
+				return
+			}
 			r.Violation(t, "corruption", c, "%s", o.msg)
 		}
 	})
